@@ -494,6 +494,7 @@ static bool model_step_inner(Model &m, Op &op) {
     }
     case OP_PUT_ATT: {
         if (!f.open || nm.empty() || f.readonly) return skip();
+        if (!(op.a[3] > 0 && !op.att.v.empty() && (op.att.type == NC_BYTE || op.att.type == NC_UBYTE || op.att.type == NC_SHORT || op.att.type == NC_USHORT) && op.alt_rank < 0)) op.a[3] = 0;   // the out-of-range form exists for 8/16-bit integer attributes only
         std::vector<MAtt> *l = &f.gatts;
         if (op.var >= 0) { int vi = resolve_var(f, op.var); if (vi < 0) return skip(); l = &f.vars[vi].atts; op.var = vi; }
         if (!type_ok_for_format(op.att.type, f.format)) return skip();
@@ -509,7 +510,12 @@ static bool model_step_inner(Model &m, Op &op) {
         long long mx = type_maxval(op.att.type);
         for (auto &x : op.att.v) x = 1 + (((x - 1) % mx) + mx) % mx;   // into [1, mx]; idempotent (programs are re-annotated on replay / by C10)
         if (!a) { l->push_back(MAtt()); a = &l->back(); a->name = nm; }
-        a->type = op.att.type; a->v = op.att.v; return true;
+        a->type = op.att.type; a->v = op.att.v; a->unk = -1;
+        // a[3] > 0: the value is passed as int and element (a[3]-1) mod n is 70000, outside the range of an 8/16-bit external type: the call returns NC_ERANGE, the attribute is
+        // still defined / overwritten (in memory and, in data mode, in the file) and only that element is unspecified
+        if (op.a[3] > 0 && !op.att.v.empty() && (op.att.type == NC_BYTE || op.att.type == NC_UBYTE || op.att.type == NC_SHORT || op.att.type == NC_USHORT) && op.alt_rank < 0) { a->unk = (int)((op.a[3] - 1) % (long long)op.att.v.size()); op.exp_rc = NC_ERANGE; }
+        else op.a[3] = 0;
+        return true;
     }
     case OP_DEL_ATT: {
         if (!f.open || f.mode != FM_DEFINE) return skip();
